@@ -38,7 +38,7 @@ def validate_a(ctx, items):
     cases = []
     for it in items:
         cfg = dict(tolerant=False, smart=False,
-                   custom=dict(prefix=["DYN1"], infix=[dict(name="DYN0", level=it["L"]), dict(name="DYN3", level=it["L2"])], postfix=["DYN2"]))
+                   custom=dict(prefix=["DYN1"], infix=[dict(name="DYN0", level=it["L"]), dict(name="DYN3", level=it["L2"])], postfix=["DYN2", "DYN1"]))
         # registration order in the harness: names are registered in the order prefix, infix, postfix
         cases.append(dict(id=it["id"], src=list(it["text"].encode()), cfg=cfg, compile=False))
     res = ctx.run_harness("parse", cases, case_timeout_ms=5000)
